@@ -394,6 +394,21 @@ def compare(beh, info, res, tol=2e-5, log_on=True, echo_on=True):
             out.append(("C17,C02", "last-measurement table %s, spec %s" % (fin["last"], beh["last"])))
         if fin["free"] != beh["free"]:
             out.append(("C03", "free list %s, spec %s" % (fin["free"], beh["free"])))
+    # end-of-run report of unmeasured qubits (QRuntime.Warned): one line per named, unflagged qubit, in index order.
+    # The report is not part of any listed property: a disagreement is a NOTE (recorded in the evidence, no alarm) unless
+    # it can only come from the evaluator-side measured flag of C06 - a variable reported more often than it has unmeasured
+    # elements means a measured qubit whose flag is unset, i.e. one the evaluator would let a gate act on.
+    if "warn" in beh and "stderr" in res and not halted and shot["status"] == "ok":
+        import re
+        got = re.findall(r"Qubit (\S+) was left unmeasured", res["stderr"])
+        want_w = ["v%d" % i for i in beh["warn"]]
+        if got != want_w:
+            over = sorted({g for g in got if re.fullmatch(r"v\d+", g) and got.count(g) > want_w.count(g)})
+            if over:
+                out.append(("C06", "end-of-run report calls %s unmeasured more often than it has unmeasured elements (report %s, spec %s): "
+                                   "the evaluator-side measured flag of a measured qubit is unset" % (over, got, want_w)))
+            else:
+                out.append(("NOTE", "unmeasured-qubit report names %s, spec %s" % (got, want_w)))
     # tracked outcomes
     exp = {}
     for key, outcome in beh["trk"]:
